@@ -280,6 +280,8 @@ def run(ctx):
     r.inst("rewrite_str_utf8", sample={"writes": len(ws), "ends": len(es)})
     if len(ws) != 1 or len(es) != 1 or not f.dominates(ws[0], es[0]) or any(ws[0] in f.reachable_blocks(s) for s in f.succs()[ws[0]]):
         r.violate("rewrite_str_utf8", "rewrite_str_utf8 is not a single write() followed by end()", f.loc())
+    sm.clause_rewrite_str_plumbing(r, mir)
+    sm.clause_seq_mark_writes(r, mir)
 
     # ------------------------------------------------------------------ R02.6
     r = ctx.rule("R02.6", "the text decoder's fast path is never taken while the streaming decoder may hold the head of a split character: in split_utf8_start everything is dominated by the `pending decoder is none` edge", "E-MIR", floor=2)
